@@ -221,9 +221,12 @@ def selects(f):
         if base is None:
             continue
         ty = f.locals[base]
-        head, args = split_generics(ty)
-        if not head.endswith("::Out") or "select" not in " ".join(t.get("mac") or []):
+        k = ty.find("__tokio_select_util::Out<")
+        if k < 0 or "select" not in " ".join(t.get("mac") or []):
             continue
+        if ty[:k].count("<") != ty[:k].count(">"):
+            continue      # nested (e.g. Poll<Out<..>>): the await of the select, not its dispatch
+        head, args = split_generics(ty[k:])
         arms = {}
         for v, tb in t["targets"]:
             v = int(v)
@@ -239,16 +242,53 @@ def selects(f):
 
 _TRANSPARENT = ("core::clone::Clone::clone", "core::convert::Into::into", "core::convert::From::from",
                 "core::borrow::Borrow::borrow", "core::ops::deref::Deref::deref",
-                "core::convert::AsRef::as_ref")
+                "core::ops::deref::DerefMut::deref_mut",
+                "core::convert::AsRef::as_ref", "core::ops::try_trait::Try::branch",
+                "core::future::into_future::IntoFuture::into_future", "core::pin::Pin::new_unchecked",
+                "core::pin::Pin::new", "core::future::future::Future::poll",
+                "tracing::instrument::Instrument::instrument", "core::pin::Pin::as_mut",
+                "core::option::Option::as_ref", "core::option::Option::as_mut",
+                "core::result::Result::as_ref", "core::option::Option::take")
+
+_THIN_CACHE = {}
 
 
-def copy_sources(f, local, depth=12, transparent=(), stop=()):
+def thin_accessor(F, npath):
+    """If the workspace function `npath` merely returns (a copy of) a field path of its
+    first argument, return that field path (tuple of names), else None."""
+    if F is None:
+        return None
+    if npath in _THIN_CACHE:
+        return _THIN_CACHE[npath]
+    res = None
+    try:
+        g = F.fn(npath)
+    except KeyError:
+        g = None
+    _THIN_CACHE[npath] = None
+    if g is not None and len(g.blocks) <= 6 and not any(True for _ in g.calls()):
+        srcs = copy_sources(g, 0, depth=6)
+        if len(srcs) == 1:
+            x = next(iter(srcs))
+            if x[0] == "arg" and x[1] == 1:
+                res = x[2]
+    _THIN_CACHE[npath] = res
+    return res
+
+
+def _fields_of(p):
+    return tuple(e[2] if e[2] else str(e[1]) for e in p.get("p", []) if e[0] == "f")
+
+
+def copy_sources(f, local, depth=24, transparent=(), stop=(), F=None):
     """Follow `local` backwards through *value-preserving* definitions only (copies, moves,
-    reborrows, derefs, Clone/Into/thin accessors listed in `transparent`).  Returns a set of
-    source descriptions:  ('place', local, (field names..))  |  ('arg', n)  |
-    ('call', callee)  |  ('const', text)  |  ('agg', adt::variant) | ('other', kind).
-    Every definition of every local on the way is followed, so a value that may come from
-    two places yields two sources."""
+    reborrows, derefs, `?`, `.await`, Clone/Into, and thin field accessors of the workspace
+    when `F` is given).  Returns a set of source descriptions:
+      ('place', local, fields) | ('arg', n, fields) | ('call', callee, fields) |
+      ('const', text) | ('agg', adt::variant) | ('other', kind)
+    where `fields` is the tuple of field names projected out of the source (variant
+    payloads appear as "0").  Every definition of every local on the way is followed, so a
+    value that may come from two places yields two sources."""
     out = set()
     seen = set()
     trans = set(_TRANSPARENT) | set(transparent)
@@ -281,26 +321,31 @@ def copy_sources(f, local, depth=12, transparent=(), stop=()):
         for kind, x in ds:
             if kind == "call":
                 names = callee_names(x)
-                if any(n in trans for n in names) and x["args"]:
+                if x["args"] and x["args"][0]["k"] in ("copy", "move"):
                     a = x["args"][0]
-                    if a["k"] in ("copy", "move"):
-                        nf = tuple(e[2] for e in a["p"].get("p", []) if e[0] == "f")
-                        walk(a["p"]["l"], nf + fields, d + 1)
+                    if any(n in trans for n in names):
+                        walk(a["p"]["l"], _fields_of(a["p"]) + fields, d + 1)
                         continue
-                out.add(("call", names[0] if names else "?"))
+                    thin = None
+                    for n in names:
+                        thin = thin_accessor(F, n)
+                        if thin is not None:
+                            break
+                    if thin is not None:
+                        walk(a["p"]["l"], _fields_of(a["p"]) + thin + fields, d + 1)
+                        continue
+                out.add(("call", names[0] if names else "?", fields))
                 continue
             rv = x
             if rv["k"] in ("use", "cast") and rv["o"]["k"] in ("copy", "move"):
                 p = rv["o"]["p"]
-                nf = tuple(e[2] for e in p.get("p", []) if e[0] == "f")
                 if any(e[0] in ("idx", "ci", "sub") for e in p.get("p", [])):
                     out.add(("other", "index"))
                     continue
-                walk(p["l"], nf + fields, d + 1)
+                walk(p["l"], _fields_of(p) + fields, d + 1)
             elif rv["k"] == "ref":
                 p = rv["p"]
-                nf = tuple(e[2] for e in p.get("p", []) if e[0] == "f")
-                walk(p["l"], nf + fields, d + 1)
+                walk(p["l"], _fields_of(p) + fields, d + 1)
             elif rv["k"] in ("use", "cast") and rv["o"]["k"] == "const":
                 out.add(("const", rv["o"].get("def") or rv["o"].get("v") or "?"))
             elif rv["k"] == "agg":
@@ -313,3 +358,104 @@ def copy_sources(f, local, depth=12, transparent=(), stop=()):
 
     walk(local, (), 0)
     return out
+
+
+# ------------------------------------------------------------------------------------------
+# place types (through workspace ADT tables)
+# ------------------------------------------------------------------------------------------
+
+def place_ty(F, f, pl):
+    """Type string of a place, resolved through field projections on workspace ADTs.
+    Returns None when it cannot be determined."""
+    ty = f.locals[pl["l"]]
+    for e in pl.get("p", []):
+        if e[0] == "deref":
+            if ty is None:
+                continue
+            if ty.startswith("&mut "):
+                ty = ty[5:]
+            elif ty.startswith("&"):
+                ty = ty[1:]
+            elif ty.startswith("alloc::boxed::Box<"):
+                ty = split_generics(ty)[1][0]
+        elif e[0] == "f":
+            owner = e[3]
+            name = e[2]
+            ty = None
+            adt = None
+            variant = None
+            try:
+                adt = F.adt(owner)
+            except KeyError:
+                if "::" in owner:
+                    o2, variant = owner.rsplit("::", 1)
+                    try:
+                        adt = F.adt(o2)
+                    except KeyError:
+                        adt = None
+            if adt is not None:
+                for v in adt["variants"]:
+                    if variant is not None and v["name"] != variant:
+                        continue
+                    for fd in v["fields"]:
+                        if fd["name"] == name:
+                            ty = fd["ty"]
+            elif owner in ("core::result::Result::Ok", "core::result::Result::Err",
+                           "core::option::Option::Some") and name == "0":
+                # payload of Result/Option: take from the base type's generics
+                ty = None
+        elif e[0] == "dc":
+            pass
+        else:
+            ty = None
+    return ty
+
+
+def controlling_switches(f, bb):
+    """Switch blocks S such that `bb` becomes unreachable from entry when one single
+    out-edge of S is removed (bb is control-dependent on S)."""
+    out = []
+    for s in sorted(f.reachable(0)):
+        t = f.blocks[s]["t"]
+        if t["k"] != "switch":
+            continue
+        for tgt in set(f.succs()[s]):
+            if bb not in f.reachable(0, removed_edges={(s, tgt)}):
+                out.append((s, tgt))
+                break
+    return out
+
+
+def calls_on_field(f, field, *names, regex=None, owner=None):
+    """Calls whose receiver (first argument) is a reference to a place ending in `.field`."""
+    out = []
+    for b, t in find_calls(f, *names, regex=regex):
+        if not t["args"]:
+            continue
+        l = op_base(t["args"][0])
+        if l is None:
+            continue
+        a0 = t["args"][0]
+        pl = a0["p"] if a0["p"].get("p") else ref_source_place(f, l)
+        if pl is None:
+            continue
+        fs = [(e[2], e[3]) for e in pl.get("p", []) if e[0] == "f"]
+        if fs and fs[-1][0] == field and (owner is None or fs[-1][1] == owner):
+            out.append((b, t))
+    return out
+
+
+def const_returns(f):
+    """Blocks assigning a literal constant to the return place: [(bb, value-string)]."""
+    out = []
+    for b, i, rv in returns_of(f):
+        if i is not None and rv["k"] == "use" and rv["o"]["k"] == "const":
+            out.append((b, rv["o"].get("v")))
+    return out
+
+
+def edge_guard(f, bb, tests, success=True):
+    """bb requires the success (or failure) edge of the given tests."""
+    if success:
+        return requires(f, bb, tests)
+    return requires_failure(f, bb, tests)
